@@ -124,6 +124,8 @@ type Result struct {
 	Solver       sym.Stats
 	SolverB      sym.Stats
 	Samples      []string
+	DiffSamples  []*Assignment // models of sampled completed paths (no violation): replayed natively, must run clean
+	diffSeen     int
 	Observes     []string // concrete mode
 	Wall         time.Duration
 	Truncated    bool
@@ -165,6 +167,7 @@ type Worker struct {
 	nameCount  map[string]int
 	usedUF     bool
 	observes   []string
+	pathViol   int // violations reported on the current path
 	domains    map[*sym.Term]string // symbolic bytes with a known finite alphabet
 	knownSites map[string]string    // panic site substring -> known-finding id
 	knownHit   map[string]*sym.Term // known-finding predicates true on this path (id -> cond term or nil=concrete true)
@@ -507,6 +510,7 @@ func (w *Worker) ensureTierB() *sym.Solver {
 // satisfiable according to tier A; confirm with tier B when FP UFs are in play.
 func (w *Worker) reportViolation(kind, label string, extra *sym.Term, fr *frame) {
 	eng := w.eng
+	w.pathViol++
 	// known-finding predicates: is the violation inside a listed finding?
 	known := ""
 	site := ""
@@ -857,6 +861,7 @@ func (w *Worker) runPath(prefix []Decision) {
 	w.nameCount = map[string]int{}
 	w.usedUF = false
 	w.observes = nil
+	w.pathViol = 0
 	w.knownHit = nil
 	w.knownSites = nil
 	w.domains = nil
@@ -906,7 +911,27 @@ func (w *Worker) runPath(prefix []Decision) {
 		call(i, nil, token.NoPos, e.Fn, nil)
 		completed = true
 	}()
+	// differential sample: a model of a clean completed path (log-spaced path numbers), to be
+	// replayed natively by the caller; the native run must be clean too
+	var diff *Assignment
+	if completed && w.pathViol == 0 && !w.usedUF && e.Opt.Concrete == nil {
+		take := false
+		e.note(func(res *Result) {
+			res.diffSeen++
+			n := res.diffSeen
+			take = len(res.DiffSamples) < 24 && (n <= 4 || n&(n-1) == 0 || n%1000 == 777)
+		})
+		if take {
+			if r, a := w.model(nil, w.solver); r == sym.Sat && a != nil {
+				a.Label = "differential sample"
+				diff = a
+			}
+		}
+	}
 	e.note(func(res *Result) {
+		if diff != nil && len(res.DiffSamples) < 24 {
+			res.DiffSamples = append(res.DiffSamples, diff)
+		}
 		res.Paths++
 		res.Decisions += len(w.taken)
 		if completed {
